@@ -341,3 +341,31 @@ func Hash(parts ...[]byte) uint64 {
 	}
 	return v
 }
+
+// Enumerate returns the choice vector of every execution of gen (no cost bound), in DFS order.
+// gen must be cheap: it is meant for case generators whose cases are then run elsewhere
+// (isolated workers address a case by its index in this list).
+func Enumerate(gen func(c *Ctx)) [][]int {
+	var out [][]int
+	var rec func(prefix []int)
+	rec = func(prefix []int) {
+		c := &Ctx{prefix: prefix}
+		gen(c)
+		out = append(out, c.Choices())
+		for i := len(prefix); i < len(c.Points); i++ {
+			for alt := 1; alt < c.Points[i].N; alt++ {
+				child := make([]int, i+1)
+				for k := 0; k < i; k++ {
+					child[k] = c.Points[k].Choice
+				}
+				child[i] = alt
+				rec(child)
+			}
+		}
+	}
+	rec(nil)
+	return out
+}
+
+// Replay returns a context that answers with the given choice vector.
+func Replay(choices []int) *Ctx { return &Ctx{prefix: choices} }
